@@ -57,7 +57,14 @@ func c02Config(cfg int) c02Cfg {
 func verifC02() {
 	npre := vParam("npre", 3)
 	nsamp := []int{vParam("nsampA", 4), vParam("nsampB", 12)}[vRange("nsampsel", 0, 1)]
-	hist := vRange("history", 0, 3)
+	hist := vRange("history", 0, vParam("maxhistory", 4))
+	if hist == 4 {
+		// a pulse-length request that ENLARGES the record beyond 2 x old + 10 samples
+		if nsamp != vParam("nsampB", 12) {
+			vAssume(false)
+		}
+		nsamp = vParam("nsampC", 20)
+	}
 	cfgNo := vRange("cfg", 0, vParam("maxcfg", 6))
 	nblocks := vRange("nblocks", 2, vParam("maxblocks", 2))
 	maxblk := nsamp + vParam("blockextra", 5)
@@ -78,6 +85,9 @@ func verifC02() {
 	if (cfgNo == 2 || cfgNo == 3 || cfgNo == 5) && (nsamp > vParam("levelmaxnsamp", 4) || total > vParam("levelmaxtotal", 14)) {
 		vAssume(false) // level crossings fork at every sample: short records / streams only
 	}
+	if hist == 4 && cfgNo >= 2 && cfgNo <= 5 {
+		vAssume(false) // long streams: edge configurations only
+	}
 	cfg := c02Config(cfgNo)
 	full := []FullTriggerState{{ChannelIndices: []int{0}, TriggerState: cfg.ts}}
 	var rig *tRig
@@ -90,10 +100,15 @@ func verifC02() {
 	case 2: // restored settings, then a pulse-length request that changes nothing
 		rig = newTRig(1, npre, nsamp, total, full, true)
 		vCheck(rig.ds.ConfigurePulseLengths(nsamp, npre) == nil, "ConfigurePulseLengths accepted")
-	default: // trigger request, then a pulse-length request that changes the record length
+	case 3: // trigger request, then a pulse-length request that shortens the record
 		rig = newTRig(1, npre, nsamp+3, total, nil, true)
 		vCheck(rig.ds.ChangeTriggerState(&full[0]) == nil, "ChangeTriggerState accepted")
 		vCheck(rig.ds.ConfigurePulseLengths(nsamp, npre) == nil, "ConfigurePulseLengths accepted")
+	default: // trigger request, then a pulse-length request that lengthens the record a lot
+		rig = newTRig(1, npre, 4, total, nil, true)
+		vCheck(rig.ds.ChangeTriggerState(&full[0]) == nil, "ChangeTriggerState accepted")
+		vCheck(rig.ds.ConfigurePulseLengths(nsamp, npre) == nil, "ConfigurePulseLengths accepted")
+		rig.nsamp = nsamp
 	}
 	rig.signed = vRange("signed", 0, 1) == 1
 	var trigs []int
